@@ -4,6 +4,7 @@ Monitor shape: reference model (integer / multiset model written from the proper
 text) compared with every observed call of the real hyruns functions."""
 import itertools
 import json
+import warnings
 from collections import Counter
 
 import numpy as np
@@ -66,6 +67,32 @@ def check_partition(ctx, n, k, case):
                       "get_batch|later-call-sees-callers-edits", case,
                       lambda: {"n": n, "k": k, "i": i, "second": np.asarray(b2)[:6],
                                "first": batches[-1][:6]})
+    # the three integers as a caller may hold them: numpy integers of any width that
+    # can hold them (a loop counter from np.arange(k, dtype=np.uint8), sizes from .shape)
+    kinds = [np.int64, np.int32, np.int16, np.uint16, np.uint8, np.int8]
+    def narrow(v, j):
+        for t in kinds[j % 6:] + kinds[:j % 6]:
+            if np.iinfo(t).min <= v <= np.iinfo(t).max:
+                return t(v)
+        return int(v)
+    for i in sorted(set([0, k - 1, k // 2, (n + k) % k])):
+        forms = [(n, k, narrow(i, n + i)), (narrow(n, i), narrow(k, i + 1), narrow(i, 4)),
+                 (n, narrow(k, 2 + i), narrow(i, 3))]
+        a_, b_, c_ = forms[(n + k + i) % 3]
+        ctx.tag("batch:numpy-integer-arguments")
+        ctx.api("get_batch")
+        try:
+            with np.errstate(all="ignore"), warnings.catch_warnings():
+                warnings.simplefilter("ignore")
+                bb = np.asarray(hy.get_batch(a_, b_, c_))
+            okn = bool(np.array_equal(bb, batches[i]))
+        except Exception as e:
+            bb, okn = repr(e)[:200], False
+        ctx.check("batch.numpy-integers", okn,
+                  "get_batch|result-depends-on-integer-type-of-arguments", case,
+                  lambda: {"n": repr(a_), "k": repr(b_), "i": repr(c_),
+                           "got": bb[:6] if isinstance(bb, np.ndarray) else bb,
+                           "expected": batches[i][:6]})
     key = "get_batch|partition"
     allv = np.concatenate(batches) if batches else np.array([])
     ok = True
@@ -367,6 +394,23 @@ def run_opm_case(ctx, case):
                 canon({k: as_list(v) for k, v in opm.options.items()}))
         ctx.check("opm.roundtrip-state", same, "OptionManager|roundtrip-state",
                   case, lambda: {"dict": dd2})
+        # the copy made through the dictionary (no JSON text in between) is then given
+        # another grid with the public method: the original enumerates what it did
+        # (the two objects do share their dictionaries in the unchanged library; editing
+        # those directly is the caller's own doing and is not tried)
+        opm3 = hy.OptionManager.from_dict(opm.to_dict())
+        before = ([canon(t) for t in opm.tasks],
+                  canon({k: as_list(v) for k, v in opm.options.items()}),
+                  canon(opm.context))
+        opm3.from_cartesian_product(zz_other=[1, 2, 3], zz_more=["u", "v"])
+        after = ([canon(t) for t in opm.tasks],
+                 canon({k: as_list(v) for k, v in opm.options.items()}),
+                 canon(opm.context))
+        ctx.tag("opm:copy-rebuilt")
+        ctx.api("to_dict/from_dict")
+        ctx.check("opm.copy-independent", before == after,
+                  "OptionManager|changed-when-its-dictionary-copy-is-rebuilt", case,
+                  lambda: {"options_now": sorted(opm.options.keys())})
         if rename:
             names = set(dd.keys())
             want = {"name", "tasks", rename.get("context_name", "context"),
